@@ -133,9 +133,15 @@ def enumerate_target(tg, rec, label, max_events=None):
     rec.count("events_before_output_phase", open_idx)
     # ---- one run per event ----------------------------------------------------------
     idxs = list(range(0, open_idx))
+    # After the target has been opened the output phase has begun; the statement orders two things BEFORE it: computing the
+    # signatures and serialising the result.  So between the open and the first write a fault is delivered only at calls of
+    # serialisation / signing work (a streaming writer, an encode step moved behind the open), never at the writer's own
+    # plumbing (memoryview, len, os.write, flush ...), where a failure is an output-phase failure the statement does not cover.
     for i in range(open_idx, min(write_idx, len(trace))):
-        if trace[i][0] in ("C", "S") and not trace[i][4].endswith("write") and "open" != trace[i][4]:
+        if trace[i][0] in ("C", "S") and _is_computation(trace[i][4]):
             idxs.append(i)
+        elif trace[i][0] in ("C", "S"):
+            rec.count("output_phase_plumbing_calls_not_faulted")
     if max_events and len(idxs) > max_events:
         rnd = random.Random(len(trace))
         idxs = sorted(rnd.sample(idxs, max_events))
@@ -206,6 +212,17 @@ def enumerate_target(tg, rec, label, max_events=None):
     # ---- faults inside the primitives ------------------------------------------------
     primitive_faults(tg, rec, case)
     tg.reset()
+
+
+_COMPUTATION = ("dump", "encode", "serializ", "sign", "canon", "iterencode", "hexlify", "to_hex", "json")
+_PLUMBING = ("write", "open", "close", "flush", "fsync", "__exit__", "__enter__", "memoryview", "len", "fspath", "replace", "rename", "mkstemp", "unlink")
+
+
+def _is_computation(callee):
+    c = callee.lower()
+    if any(c == x or c.endswith("." + x) for x in _PLUMBING):
+        return False
+    return any(x in c for x in _COMPUTATION)
 
 
 def _same_event(a, b):
@@ -432,6 +449,24 @@ def run_gpg(spec, rec, lib):
             home.__exit__(None, None, None)
 
 
+def _late_depth():
+    """a nesting depth the JSON parser still reads but the (pure-Python, indenting) serializer cannot write"""
+    for d in range(900, 1500, 50):
+        raw = "[" * d + "]" * d
+        try:
+            v = json.loads(raw)
+        except RecursionError:
+            return None
+        try:
+            json.dumps(v, indent=2, sort_keys=True)
+        except RecursionError:
+            return d + 100 if d + 100 < 1450 else d
+    return None
+
+
+LATE_DEPTH = _late_depth() or 1
+
+
 def run_natural(spec, rec, lib):
     """natural failures of the repodata path (API and CLI)"""
     rng = random.Random(spec["seed"])
@@ -457,6 +492,11 @@ def run_natural(spec, rec, lib):
         "invalid_utf8": b'{"packages": {"a": "\xff\xfe"}}',
         "nan_key_dup": b'{"packages": {"a": 1, "a": 2}, "packages": 5}',
         "deep": (b'{"packages": {"a": ' + b"[" * 2000 + b"]" * 2000 + b"}}"),
+        # LATE natural failures: every artifact signs, only the serialisation of the whole result fails (a part of the document
+        # that is never signed is nested deeper than the serializer can go, while the parser could still read it)
+        "late_deep_extra_field": (b'{"packages": {"a-1-0.tar.bz2": {"name": "a"}}, "packages.conda": {"c-1-0.conda": {"name": "c"}}, "zzz-info": '
+                                  + b"[" * LATE_DEPTH + b"]" * LATE_DEPTH + b"}"),
+        "late_deep_first_field": (b'{"aaa-info": ' + b'{"k": ' * LATE_DEPTH + b"1" + b"}" * LATE_DEPTH + b', "packages": {"a-1-0.tar.bz2": {"name": "a"}}}'),
     }
     keys = {"good": key.seed.hex(), "not_hex": "zz" * 32, "short": key.seed.hex()[:-2], "upper": key.seed.hex().upper() if key.seed.hex().upper() != key.seed.hex() else "AB" * 32,
             "empty": "", "none": None, "bytes": key.seed, "int": 5}
@@ -536,7 +576,8 @@ def run_natural_gpg(spec, rec, lib):
 
     scenarios = []
     for dn, raw in (("good", good), ("not_json", b"{nope"), ("not_envelope", b'{"a": 1}'), ("list", b"[]"), ("extra_field", json.dumps(dict(json.loads(good), extra=1)).encode()),
-                    ("signatures_list", json.dumps({"signatures": [], "signed": md}).encode())):
+                    ("signatures_list", json.dumps({"signatures": [], "signed": md}).encode()),
+                    ("late_deep_junk_entry", b'{"signatures": {"zz": ' + b"[" * LATE_DEPTH + b"]" * LATE_DEPTH + b'}, "signed": ' + json.dumps(md).encode() + b"}")):
         for fn, fp in (("good", fpr), ("short", "ab" * 19), ("upper", "AB" * 20), ("nonhex", "zz" * 20), ("int", 5)):
             for dep in ("stub", "no_sslib", "gpg_fails", "export_fails"):
                 if dn == "good" and fn == "good" and dep == "stub":
